@@ -148,6 +148,8 @@ def r11_3_dump_writer_reader(repo: Repo, rep: Report):
     if len(writes) != 2:
         rep.bad("R11.3", m, fn, f"{len(writes)} write_text calls", "dump must write the query in both the cached and the plain branch")
         return
+    gsets = sorted(sorted(guard_set(m, w) - {"args.verbose >= 1"}) for w in writes)
+    rep.check("R11.3", gsets == [["args.cache_solver"], ["not (args.cache_solver)"]], m, writes[0], f"dump branches on exactly args.cache_solver: {gsets}", "the named-assertion encoding must be written exactly when Path.to_smt2 tracked the assertions (args.cache_solver): otherwise the query contains `(=> |id| c)` implications whose literals are never asserted and every constraint becomes vacuous")
     for w in writes:
         gs = guard_set(m, w)
         cached = "args.cache_solver" in gs
